@@ -92,6 +92,9 @@ func (m *MilvusClientResourceManager) GetMilvusClient(ctx context.Context, addre
 	if database == "" {
 		database = DefaultDbName
 	}
+	if c := verifMilvusClient(ctx, address, token, database); c != nil {
+		return c, nil
+	}
 	ctxLog := log.Ctx(ctx).With(zap.String("database", database), zap.String("address", address))
 	res, err := m.manager.Get(MilvusClientResourceTyp,
 		getMilvusClientResourceName(address, database),
